@@ -146,8 +146,16 @@ package errbase
 //@   ensures backwardRegistry[fullNameT(typeof(newType))] == resolveKey(old(backwardRegistry), previousPkgPath + "/" + previousTypeName)
 //@   ensures forall x TypeKey :: x != fullNameT(typeof(newType)) ==> backwardRegistry.has(x) == old(backwardRegistry).has(x)
 //@   ensures forall x TypeKey :: x != fullNameT(typeof(newType)) && old(backwardRegistry).has(x) ==> backwardRegistry[x] == (old(backwardRegistry)[x] == fullNameT(typeof(newType)) ? resolveKey(old(backwardRegistry), previousPkgPath + "/" + previousTypeName) : old(backwardRegistry)[x])
+//@   ensures forall x TypeKey :: backwardRegistry.has(x) == regStep(old(backwardRegistry), previousPkgPath + "/" + previousTypeName, fullNameT(typeof(newType))).has(x)
+//@   ensures forall x TypeKey :: backwardRegistry.has(x) ==> backwardRegistry[x] == regStep(old(backwardRegistry), previousPkgPath + "/" + previousTypeName, fullNameT(typeof(newType)))[x]
 //@   maintains migrations_closed
 //@   loop 1: invariant ref(backwardRegistry) == old(ref(backwardRegistry))
 //@           invariant forall x TypeKey :: backwardRegistry.has(x) == (old(backwardRegistry).has(x) || x == newKey)
 //@           invariant backwardRegistry[newKey] == prevKey
 //@           invariant forall x TypeKey :: x != newKey && old(backwardRegistry).has(x) ==> backwardRegistry[x] == ((x in $visited) && old(backwardRegistry)[x] == newKey ? prevKey : old(backwardRegistry)[x])
+
+// regStep: the registry after one registration, as a pure function of the old registry (spec of
+// RegisterTypeMigration; tied to the code by the last ensures below)
+//@ spec func regStep(r map[TypeKey]TypeKey, pk TypeKey, nk TypeKey) map[TypeKey]TypeKey
+//@ axiom regStep_has: forall r map[TypeKey]TypeKey, pk TypeKey, nk TypeKey, x TypeKey :: {regStep(r, pk, nk).has(x)} regStep(r, pk, nk).has(x) == (r.has(x) || x == nk)
+//@ axiom regStep_get: forall r map[TypeKey]TypeKey, pk TypeKey, nk TypeKey, x TypeKey :: {regStep(r, pk, nk)[x]} regStep(r, pk, nk)[x] == (x == nk ? resolveKey(r, pk) : (r[x] == nk ? resolveKey(r, pk) : r[x]))
